@@ -38,6 +38,8 @@ def run(chk):
     e3.run_B(chk)
     e3.run_V1(chk)
 
+    from . import e10
+    e10.run_U(chk, ("yastn.tensor", "yastn.initialize"), floor1=5, floor2=1)
 
 MUTANTS = [
     ("unfuse counts in native order", "yastn/tensor/_merging.py", "        nlegs = [nlegs[hi] for hi in axes_hf]  # axes_mf and axes_uf follow the order of tensor legs\n", "        nlegs = [nlegs[hi] for hi in sorted(axes_hf)]\n", "I4"),
